@@ -34,40 +34,16 @@ theorem plan_glyphset_contains_requested (p : PlanIn) (pl : Plan) (h : makePlan 
     (0 < p.num → 0 ∈ pl.glyphset) ∧
     (∀ g ∈ p.gids, g < p.num → g ∈ pl.glyphset) ∧
     (∀ cp g, (cp, g) ∈ p.cmap → cp ∈ p.unicodes → g < p.num → g ∈ pl.glyphset) := by
-  unfold makePlan at h
-  simp only at h
-  split at h
-  · cases h
-  · rename_i u2g hu
-    simp only [Option.some.injEq] at h
-    subst h
-    simp only
-    -- anything in the raw gsub set below num reaches the final glyph set
-    have key : ∀ g, g < p.num →
-        g ∈ (0 :: ((unicodesToRetain p).2 ++ (unicodesToRetain p).1.map (·.2) ++ p.extraGsub)) →
-        g ∈ sortedBelow p.num (closureAll p.comps
-          ((sortedBelow p.num (0 :: ((unicodesToRetain p).2 ++ (unicodesToRetain p).1.map (·.2) ++ p.extraGsub))).length
-            * MAX_COMPOSITE_OPERATIONS_PER_GLYPH : Nat)
-          (sortedBelow p.num (sortedBelow p.num (0 :: ((unicodesToRetain p).2 ++ (unicodesToRetain p).1.map (·.2) ++ p.extraGsub)) ++ p.extraColred)) []) := by
-      intro g hg hm
-      rw [mem_sortedBelow]
-      refine ⟨hg, closureAll_roots _ _ _ _ g ?_⟩
-      rw [mem_sortedBelow]
-      refine ⟨hg, ?_⟩
-      rw [List.mem_append]
-      left
-      rw [mem_sortedBelow]
-      exact ⟨hg, hm⟩
-    refine ⟨fun h0 => key 0 h0 (by simp), ?_, ?_⟩
-    · intro g hg hlt
-      apply key g hlt
-      have := unicodesToRetain_gids p g hg hlt
-      simp [this]
-    · intro cp g hm hcp hlt
-      apply key g hlt
-      have := unicodesToRetain_cmap p hc cp g hm hcp
-      simp only [List.mem_cons, List.mem_append, List.mem_map]
-      exact Or.inr (Or.inl (Or.inr ⟨(cp, g), this, rfl⟩))
+  obtain ⟨_, _, hgs, _⟩ := makePlan_some p pl h
+  rw [hgs]
+  have key : ∀ g, g ∈ planGsub p → g ∈ planGlyphset p := fun g hg =>
+    planColred_sub_glyphset p g (planGsub_sub_colred p g hg)
+  refine ⟨fun h0 => key 0 ((mem_planGsub p 0).mpr ⟨h0, Or.inl rfl⟩), ?_, ?_⟩
+  · intro g hg hlt
+    exact key g ((mem_planGsub p g).mpr ⟨hlt, Or.inr (Or.inl (unicodesToRetain_gids p g hg hlt))⟩)
+  · intro cp g hm hcp hlt
+    exact key g ((mem_planGsub p g).mpr
+      ⟨hlt, Or.inr (Or.inr (Or.inl ⟨(cp, g), unicodesToRetain_cmap p hc cp g hm hcp hlt, rfl⟩))⟩)
 
 /-- **plan_glyphset_only_reachable.** Every glyph of the plan's glyph set is below the font's glyph
 count and is a root of the composite closure (a member of `glyphset_colred`) or a transitive component of one;
@@ -77,32 +53,46 @@ theorem plan_glyphset_only_reachable (p : PlanIn) (pl : Plan) (h : makePlan p = 
     (∀ x ∈ pl.glyphset, x < p.num ∧ ∃ r ∈ pl.colred, Reach p.comps r x) ∧
     (∀ r ∈ pl.colred, r = 0 ∨ r ∈ p.gids ∨ (∃ cp, (cp, r) ∈ p.cmap ∧ (cp ∈ p.unicodes ∨ r ∈ p.gids)) ∨
         r ∈ p.extraGsub ∨ r ∈ p.extraColred) := by
-  unfold makePlan at h
-  simp only at h
-  split at h
-  · cases h
-  · rename_i u2g hu
-    simp only [Option.some.injEq] at h
-    subst h
-    simp only
-    constructor
-    · intro x hx
-      rw [mem_sortedBelow] at hx
-      refine ⟨hx.1, ?_⟩
-      rcases closureAll_sound _ _ _ _ x hx.2 with h1 | h2
-      · simp at h1
-      · exact h2
-    · intro r hr
-      rw [mem_sortedBelow, List.mem_append, mem_sortedBelow] at hr
-      rcases hr.2 with ⟨_, hg⟩ | hy
-      · simp only [List.mem_cons, List.mem_append, List.mem_map] at hg
-        rcases hg with rfl | (hreq | ⟨cg, hcg, rfl⟩) | hx
-        · exact Or.inl rfl
-        · exact Or.inr (Or.inl (unicodesToRetain_snd_origin p r hreq).1)
-        · obtain ⟨hm, hsel⟩ := unicodesToRetain_fst_origin p cg hcg
-          exact Or.inr (Or.inr (Or.inl ⟨cg.1, hm, hsel⟩))
-        · exact Or.inr (Or.inr (Or.inr (Or.inl hx)))
-      · exact Or.inr (Or.inr (Or.inr (Or.inr hy)))
+  obtain ⟨_, hcol, hgs, _⟩ := makePlan_some p pl h
+  rw [hgs, hcol]
+  constructor
+  · intro x hx
+    unfold planGlyphset at hx
+    rw [mem_sortedBelow] at hx
+    refine ⟨hx.1, ?_⟩
+    rcases closureAll_sound _ _ _ _ x hx.2 with h1 | h2
+    · simp at h1
+    · exact h2
+  · intro r hr
+    unfold planColred at hr
+    rw [mem_sortedBelow, List.mem_append] at hr
+    rcases hr.2 with hg | hy
+    · rcases ((mem_planGsub p r).mp hg).2 with h0 | hreq | ⟨cg, hcg, rfl⟩ | hx
+      · exact Or.inl h0
+      · exact Or.inr (Or.inl (unicodesToRetain_snd_origin p r hreq).1)
+      · obtain ⟨hm, hsel, _⟩ := unicodesToRetain_fst_origin p cg hcg
+        exact Or.inr (Or.inr (Or.inl ⟨cg.1, hm, hsel⟩))
+      · exact Or.inr (Or.inr (Or.inr (Or.inl hx)))
+    · exact Or.inr (Or.inr (Or.inr (Or.inr hy)))
+
+/-- **closure_closed_when_limits_not_hit.** If neither the nesting limit (64) nor the operation
+budget (64 per glyph of `glyphset_gsub`, per root) stopped the descent anywhere (`planLimitFired p =
+false`; the flag is a specification device, erased by `closureGoF_erase` / `closureAllF_erase`), the
+plan's glyph set contains every component (that exists in the font) of every glyph it contains.
+The limits are real: see known finding C17-closure-budget for fonts where they fire. -/
+theorem closure_closed_when_limits_not_hit (p : PlanIn) (pl : Plan) (h : makePlan p = some pl)
+    (hl : planLimitFired p = false) :
+    ∀ x ∈ pl.glyphset, ∀ c ∈ compsOf p.comps x, c < p.num → c ∈ pl.glyphset := by
+  obtain ⟨_, _, hgs, _⟩ := makePlan_some p pl h
+  rw [hgs]
+  intro x hx c hc hlt
+  unfold planGlyphset at hx ⊢
+  rw [mem_sortedBelow] at hx ⊢
+  refine ⟨hlt, ?_⟩
+  unfold planLimitFired at hl
+  have hcl := closureAllF_closed p.comps _ _ ([], false) hl (by simp)
+  rw [closureAllF_erase] at hcl
+  exact hcl x hx.2 c hc
 
 /-! ## renumbering -/
 
@@ -119,34 +109,72 @@ theorem glyph_map_monotone_bijection (p : PlanIn) (pl : Plan) (h : makePlan p = 
       pl.nout = pl.glyphset.length) ∧
     (hasFlag p.flags F_RETAIN_GIDS = true →
       pl.n2o = pl.glyphset.map (fun g => (g, g)) ∧ ∀ g ∈ pl.glyphset, g < pl.nout) := by
-  unfold makePlan at h
-  simp only at h
-  split at h
-  · cases h
-  · rename_i u2g hu
-    simp only [Option.some.injEq] at h
-    subst h
-    simp only
-    refine ⟨sortedBelow_pairwise _ _, ?_, ?_⟩
-    · intro hf
-      have hlen : ∀ s, (sortedBelow p.num s).take 65536 = sortedBelow p.num s := by
-        intro s
-        apply List.take_of_length_le
-        have : (sortedBelow p.num s).length ≤ (List.range p.num).length := by
-          unfold sortedBelow; exact List.length_filter_le _ _
-        simp at this; omega
-      refine ⟨?_, ?_, ?_⟩
-      · rw [gidMap_renumber_fst _ _ hf, hlen]
-      · rw [gidMap_renumber_snd _ _ hf, hlen]
-      · rw [gidMap_renumber_nout _ _ hf, hlen]
-    · intro hf
-      obtain ⟨h1, h2⟩ := gidMap_retain p.flags
-        (sortedBelow p.num (closureAll p.comps _ _ [])) hf
-      refine ⟨h1, ?_⟩
-      intro g hg
-      rw [h2]
-      obtain ⟨m, hm, hle⟩ := pairwise_lt_le_getLast (sortedBelow_pairwise _ _) hg
-      rw [hm]; simp only; omega
+  obtain ⟨_, _, hgs, hn2o, hnout, _⟩ := makePlan_some p pl h
+  rw [hgs, hn2o, hnout]
+  have hsorted : (planGlyphset p).Pairwise (· < ·) := by
+    unfold planGlyphset; exact sortedBelow_pairwise _ _
+  have htake : (planGlyphset p).take 65536 = planGlyphset p := by
+    apply List.take_of_length_le
+    have := sortedBelow_length_le p.num (closureAll p.comps (planBudget p) (planColred p) [])
+    unfold planGlyphset; omega
+  refine ⟨hsorted, ?_, ?_⟩
+  · intro hf
+    refine ⟨?_, ?_, ?_⟩
+    · rw [gidMap_renumber_fst _ _ hf, htake]
+    · rw [gidMap_renumber_snd _ _ hf, htake]
+    · rw [gidMap_renumber_nout _ _ hf, htake]
+  · intro hf
+    obtain ⟨h1, h2⟩ := gidMap_retain p.flags (planGlyphset p) hf
+    refine ⟨h1, ?_⟩
+    intro g hg
+    rw [h2]
+    obtain ⟨m, hm, hle⟩ := pairwise_lt_le_getLast hsorted hg
+    rw [hm]; simp only; omega
+
+/-- **plan_total.** After fix 1818a8f the only `unwrap()` of `Plan::new` that depends on font data
+(`glyph_map.get(&old_gid).unwrap()` in the rewrite of `unicode_to_new_gid_list`) cannot fail: for
+every font (≤ 65536 glyphs), character map, component graph and request a plan is produced. -/
+theorem plan_total (p : PlanIn) (hn : p.num ≤ 65536) : (makePlan p).isSome := by
+  have hlen : (planGlyphset p).length ≤ 65536 := by
+    have := sortedBelow_length_le p.num (closureAll p.comps (planBudget p) (planColred p) [])
+    unfold planGlyphset; omega
+  have hall := mapM_option_isSome
+    (fun cg : Nat × Nat => (oldToNew (gidMap p.flags (planGlyphset p)).1 cg.2).map (fun n => (cg.1, n)))
+    (unicodesToRetain p).1 (fun cg hcg => by
+      obtain ⟨_, _, hlt⟩ := unicodesToRetain_fst_origin p cg hcg
+      have hmem : cg.2 ∈ planGlyphset p :=
+        planColred_sub_glyphset p _ (planGsub_sub_colred p _
+          ((mem_planGsub p cg.2).mpr ⟨hlt, Or.inr (Or.inr (Or.inl ⟨cg, hcg, rfl⟩))⟩))
+      obtain ⟨n, hn'⟩ := Option.isSome_iff_exists.mp (oldToNew_isSome p.flags _ hlen cg.2 hmem)
+      simp only [hn']; rfl)
+  obtain ⟨u2g, hu⟩ := Option.isSome_iff_exists.mp hall
+  unfold makePlan
+  simp only [hu]
+  rfl
+
+/-! ## character map -/
+
+/-- **cmap_commutes.** `unicode_to_new_gid_list` (what the cmap subsetter writes) maps a codepoint
+to `new` only if the original character map maps it to some `old` with `glyph_map[old] = new` and the
+codepoint or that glyph was requested; and every requested codepoint that the original maps is
+mapped, to the renumbered image of its glyph (entries naming a glyph the font does not have are
+skipped). -/
+theorem cmap_commutes (p : PlanIn) (pl : Plan) (h : makePlan p = some pl)
+    (hc : (p.cmap.map (·.1)).Pairwise (· ≠ ·)) :
+    (∀ cp new, (cp, new) ∈ pl.u2g →
+      ∃ old, (cp, old) ∈ p.cmap ∧ (cp ∈ p.unicodes ∨ old ∈ p.gids) ∧ oldToNew pl.n2o old = some new) ∧
+    (∀ cp old, (cp, old) ∈ p.cmap → cp ∈ p.unicodes → old < p.num →
+      ∃ new, (cp, new) ∈ pl.u2g ∧ oldToNew pl.n2o old = some new) := by
+  obtain ⟨_, _, _, hn2o, _, hu⟩ := makePlan_some p pl h
+  rw [hn2o]
+  obtain ⟨m1, m2⟩ := u2g_spec _ _ _ hu
+  constructor
+  · intro cp new hm
+    obtain ⟨old, hcg, hon⟩ := m1 cp new hm
+    obtain ⟨horig, hsel, _⟩ := unicodesToRetain_fst_origin p (cp, old) hcg
+    exact ⟨old, horig, hsel, hon⟩
+  · intro cp old hm hcp hlt
+    exact m2 cp old (unicodesToRetain_cmap p hc cp old hm hcp hlt)
 
 /-! ## hmtx -/
 
@@ -225,6 +253,126 @@ theorem hmtx_preserved (longs : List (Nat × Nat)) (lsbs : List Nat) (n2o : List
     · have hadd : newNumHMetrics longs n2o nout + (new - newNumHMetrics longs n2o nout) = new := by omega
       simp [hc, hadd, hno, hb]
 
+/-! ## glyf / loca -/
+
+/-- **loca_offsets_correct.** For new ids in strictly ascending order below `num_output_glyphs`
+(what `glyph_map_monotone_bijection` gives), the offsets `write_glyf_loca` emits are: one per glyph
+id plus one; entry `j` is the total (padded, in the short format) size of the kept glyphs with new id
+below `j`; hence entry 0 is 0, entries ascend, and every entry is even in the short format. -/
+theorem loca_offsets_correct (pad : Bool) (nout : Nat) (gs : List (Nat × Bytes))
+    (hs : (gs.map (·.1)).Pairwise (· < ·)) (hb : ∀ p ∈ gs, p.1 < nout) :
+    (locaOffsets pad nout gs).length = nout + 1 ∧
+    (∀ j, j ≤ nout → (locaOffsets pad nout gs)[j]? = some (offAt pad gs j)) ∧
+    offAt pad gs 0 = 0 ∧
+    (∀ j k, j ≤ k → offAt pad gs j ≤ offAt pad gs k) ∧
+    (pad = true → ∀ j, offAt pad gs j % 2 = 0) :=
+  ⟨locaOffsets_length pad nout gs hs hb,
+   fun j hj => locaOffsets_getElem pad nout gs hs hb j hj,
+   offAt_of_all_ge pad 0 gs (fun _ _ => Nat.zero_le _),
+   fun j k hjk => offAt_mono pad j k hjk gs,
+   fun hp j => by subst hp; exact offAt_even j gs⟩
+
+/-- **loca_resolves_to_glyph_bytes.** Every kept glyph's loca range `[loca[new], loca[new+1])` cuts
+exactly that glyph's rewritten bytes (plus the padding byte of the short format) out of the glyf
+bytes that were embedded; and an id that is not a kept glyph (retain-gids gap) has an empty range. -/
+theorem loca_resolves_to_glyph_bytes (pad : Bool) (nout : Nat) (gs : List (Nat × Bytes))
+    (hs : (gs.map (·.1)).Pairwise (· < ·)) (hb : ∀ p ∈ gs, p.1 < nout) :
+    (∀ pre gid g post, gs = pre ++ (gid, g) :: post →
+      ∃ a b, (locaOffsets pad nout gs)[gid]? = some a ∧ (locaOffsets pad nout gs)[gid + 1]? = some b ∧
+        a ≤ b ∧ ((glyfBytes pad (gs.map (·.2))).drop a).take (b - a) = slotBytes pad g) ∧
+    (∀ k, k < nout → (∀ p ∈ gs, p.1 ≠ k) →
+      (locaOffsets pad nout gs)[k]? = (locaOffsets pad nout gs)[k + 1]?) := by
+  constructor
+  · intro pre gid g post hgs
+    have hlt : gid < nout := hb (gid, g) (by rw [hgs]; simp)
+    refine ⟨offAt pad gs gid, offAt pad gs (gid + 1),
+      locaOffsets_getElem pad nout gs hs hb gid (by omega),
+      locaOffsets_getElem pad nout gs hs hb (gid + 1) (by omega),
+      offAt_mono pad _ _ (by omega) gs, ?_⟩
+    subst hgs
+    obtain ⟨e1, e2⟩ := glyfBytes_resolve pad pre gid g post hs
+    rw [e1]
+    have : offAt pad (pre ++ (gid, g) :: post) gid + slotSize pad g - offAt pad (pre ++ (gid, g) :: post) gid
+        = slotSize pad g := by omega
+    rw [this]
+    exact e2
+  · intro k hk hne
+    rw [locaOffsets_getElem pad nout gs hs hb k (by omega),
+        locaOffsets_getElem pad nout gs hs hb (k + 1) (by omega)]
+    congr 1
+    unfold offAt
+    congr 2
+    apply List.filter_congr
+    intro p hp
+    have := hne p hp
+    simp only [decide_eq_decide]
+    omega
+
+/-- **loca_encoding_exact.** With the format choice of `Glyf::subset` (`max_offset < 0x1FFFF` ⇒ short)
+the encoded loca table decodes to exactly the byte offsets: the halved offsets fit `u16` in the short
+format (this is where the `u16` accumulator of DESIGN §6-5 used to break), and `u32` in the long
+format for any glyf below 4 GiB. -/
+theorem loca_encoding_exact (nout : Nat) (news : List Nat) (gs : List Bytes)
+    (hlen : news.length = gs.length)
+    (hs : news.Pairwise (· < ·)) (hb : ∀ n ∈ news, n < nout)
+    (h32 : (gs.map (fun g => paddedSize g.length)).sum < 4294967296) :
+    let out := writeGlyfLoca nout news gs
+    (out.fmt = 0 → decodeShortLoca out.loca = locaOffsets true nout (news.zip gs)) ∧
+    (out.fmt = 1 → decodeLongLoca out.loca = locaOffsets false nout (news.zip gs)) ∧
+    (out.fmt = 0 ∨ out.fmt = 1) := by
+  intro out
+  have hkeys : (news.zip gs).map (·.1) = news := by
+    rw [List.map_fst_zip]; omega
+  have hs' : ((news.zip gs).map (·.1)).Pairwise (· < ·) := by rw [hkeys]; exact hs
+  have hb' : ∀ p ∈ news.zip gs, p.1 < nout := fun p hp => hb p.1 (by
+    rw [← hkeys]; exact List.mem_map_of_mem hp)
+  have hvals : (news.zip gs).map (·.2) = gs := by
+    rw [List.map_snd_zip]; omega
+  have htot : ∀ pad, totalSize pad (news.zip gs) = (gs.map (fun g => slotSize pad g)).sum := by
+    intro pad
+    unfold totalSize
+    rw [← hvals, List.map_map]
+    simp [Function.comp_def, hvals]
+  have hmem : ∀ pad, ∀ o ∈ locaOffsets pad nout (news.zip gs), ∃ j, j ≤ nout ∧ o = offAt pad (news.zip gs) j := by
+    intro pad o ho
+    obtain ⟨j, hj, hget⟩ := List.getElem_of_mem ho
+    have hlenl := locaOffsets_length pad nout (news.zip gs) hs' hb'
+    have hj' : j ≤ nout := by omega
+    have := locaOffsets_getElem pad nout (news.zip gs) hs' hb' j hj'
+    rw [List.getElem?_eq_getElem hj] at this
+    simp at this
+    exact ⟨j, hj', by rw [← hget]; exact this⟩
+  by_cases hshort : (gs.map (fun g => paddedSize g.length)).sum < 0x1FFFF
+  · have hfmt : out.fmt = 0 := by simp [out, writeGlyfLoca, hshort]
+    refine ⟨fun _ => ?_, fun h1 => by omega, Or.inl hfmt⟩
+    have : out.loca = (locaOffsets true nout (news.zip gs)).flatMap (fun o => be16 (o / 2 % 65536)) := by
+      simp [out, writeGlyfLoca, hshort]
+    rw [this]
+    apply decodeShortLoca_encode
+    intro o ho
+    obtain ⟨j, _, rfl⟩ := hmem true o ho
+    refine ⟨offAt_even j _, ?_⟩
+    have h1 := offAt_le_total true j (news.zip gs)
+    rw [htot true] at h1
+    have : (gs.map (fun g => slotSize true g)).sum = (gs.map (fun g => paddedSize g.length)).sum := by
+      simp [slotSize]
+    omega
+  · have hfmt : out.fmt = 1 := by simp [out, writeGlyfLoca, hshort]
+    refine ⟨fun h0 => by omega, fun _ => ?_, Or.inr hfmt⟩
+    have : out.loca = (locaOffsets false nout (news.zip gs)).flatMap (fun o => be32 (o % 4294967296)) := by
+      simp [out, writeGlyfLoca, hshort]
+    rw [this]
+    apply decodeLongLoca_encode
+    intro o ho
+    obtain ⟨j, _, rfl⟩ := hmem false o ho
+    have h1 := offAt_le_total false j (news.zip gs)
+    rw [htot false] at h1
+    have h2 : (gs.map (fun g => slotSize false g)).sum ≤ (gs.map (fun g => paddedSize g.length)).sum := by
+      apply sum_map_le
+      intro g
+      simp [slotSize, paddedSize]
+    omega
+
 /-! ## non-vacuity -/
 
 /-- 'A' → glyph 3 = composite of glyph 4 = composite of glyph 1 -/
@@ -239,6 +387,16 @@ def exIn2 : PlanIn :=
 
 example : (makePlan exIn1).map (fun pl => (pl.n2o, pl.u2g, pl.nout)) =
     some ([(0, 0), (1, 1), (2, 3), (3, 4)], [(65, 2)], 4) := by decide
+
+/-- the hypothesis of `closure_closed_when_limits_not_hit` holds here … -/
+example : planLimitFired exIn1 = false ∧ planLimitFired exIn2 = false := by decide
+
+/-- … and fails for a chain of 70 nested composites (glyph k+1 = composite of glyph k) -/
+def exChain70 : PlanIn :=
+  { flags := 0, num := 71, cmap := [], comps := [] :: (List.range 70).map (fun k => [k]),
+    gids := [70], unicodes := [], extraGsub := [], extraColred := [] }
+
+example : planLimitFired exChain70 = true := by decide
 
 example : (makePlan exIn2).map (fun pl => (pl.n2o, pl.u2g, pl.nout)) =
     some ([(0, 0), (2, 2), (3, 3), (4, 4)], [], 5) := by decide
